@@ -16,23 +16,23 @@ import (
 )
 
 type World struct {
-	prog    *ssa.Program
-	pkgs    []*packages.Package
-	specs   *SpecSet
-	funcs   map[string]*ssa.Function // canonical key -> function
-	allPkgs map[string]*types.Package
-	wsMemo  map[*ssa.Function]*WriteSet
-	wsBusy  map[*ssa.Function]bool
+	prog      *ssa.Program
+	pkgs      []*packages.Package
+	specs     *SpecSet
+	funcs     map[string]*ssa.Function // canonical key -> function
+	allPkgs   map[string]*types.Package
+	wsMemo    map[*ssa.Function]*WriteSet
+	wsBusy    map[*ssa.Function]bool
 	ptrFields map[string][]string // pointee type name -> heap variables of *T-typed struct fields
 }
 
 type WriteSet struct {
 	FreshOnly map[string]bool // variables written only inside objects allocated by the code itself
-	Vars   map[string]Sort
-	All    bool
-	Why    string // why All
-	Yields bool   // contains an interference point (lock, wait, channel operation)
-	Recvs  bool   // contains a channel receive / select (timer bookkeeping ghosts change)
+	Vars      map[string]Sort
+	All       bool
+	Why       string // why All
+	Yields    bool   // contains an interference point (lock, wait, channel operation)
+	Recvs     bool   // contains a channel receive / select (timer bookkeeping ghosts change)
 }
 
 func (w *WriteSet) add(name string, s Sort) {
@@ -93,9 +93,9 @@ func contractKeyFromFile(pkgShort, k string) string {
 }
 
 type deferred struct {
-	call  *ssa.Defer
-	guard string
-	args  []string
+	call     *ssa.Defer
+	guard    string
+	args     []string
 	recvOrFn string
 }
 
@@ -115,6 +115,7 @@ type loopInfo struct {
 	header  *ssa.BasicBlock
 	body    map[*ssa.BasicBlock]bool
 	ordinal int
+	nameOrd int // ordinal used in obligation names (the baseline ordinal when loops were re-bound)
 	spec    *LoopSpec
 	ranges  []*rangeInfo // map-range iterators advanced in this loop's header
 }
@@ -146,6 +147,13 @@ type Gen struct {
 	safety   map[string]bool
 	retCount int
 	blockCur *ssa.BasicBlock
+	// inlining of small helper functions that have no contract (so that "extract helper" refactorings stay benign)
+	inlineID    int
+	inlineDepth int
+	inlineStack map[*ssa.Function]bool
+	startHeap   *Heap  // entry heap of an inlined body (call-site heap)
+	startReach  string // reach condition of an inlined body's entry block (call-site guard)
+	aliases     map[string]string
 }
 
 func (g *Gen) errorf(format string, a ...interface{}) {
@@ -210,8 +218,12 @@ func (w *World) GenFunction(fn *ssa.Function, c *Contract) (*VC, []string) {
 	return g.vc, g.errors
 }
 
+// baselineParams: parameter names of the functions under contract on the unchanged tree (baseline/params.lock).
+var baselineParams = map[string][]string{}
+
 func (g *Gen) run() {
 	fn := g.fn
+	key := funcKey(fn)
 	if len(fn.Blocks) == 0 {
 		g.errorf("function %s has no body", funcKey(fn))
 		return
@@ -240,6 +252,9 @@ func (g *Gen) run() {
 		if isRefLike(v.Type()) {
 			g.vc.Def(g.model.allocatedBefore(sym, alloc0))
 		}
+		if g.contract.Flags["checked_arith"] != "" && isInteger(v.Type()) {
+			g.vc.Def(And(App("<=", "(- 9223372036854775808)", sym), App("<=", sym, "9223372036854775807")))
+		}
 		if _, ok := v.Type().Underlying().(*types.Slice); ok {
 			g.vc.AssumeAt("true", And(g.model.wfSlice(sym), g.model.allocatedBefore(g.model.slBase(sym), alloc0)), "slice parameter is well-formed and its array exists")
 		}
@@ -251,6 +266,18 @@ func (g *Gen) run() {
 			idx = i - 1
 		}
 		bind(p.Name(), p, idx, hasRecv && i == 0)
+	}
+	// A contract written against the parameter names of the baseline keeps binding after a parameter is renamed:
+	// the name recorded in baseline/params.lock for position i denotes the current parameter i (unless shadowed).
+	if base := baselineParams[key]; len(base) == len(fn.Params) {
+		for i, p := range fn.Params {
+			if base[i] != "" && base[i] != "_" && base[i] != p.Name() {
+				if _, taken := env.vars[base[i]]; !taken {
+					env.vars[base[i]] = Val{T: g.vals[p], Ty: p.Type()}
+					g.vc.abstract(fmt.Sprintf("parameter %d was named %q when the contract was locked and is now %q: the contract's name is bound positionally", i, base[i], p.Name()))
+				}
+			}
+		}
 	}
 	for i, fv := range fn.FreeVars {
 		sym := "fv." + mangle(fv.Name())
@@ -339,7 +366,70 @@ func (g *Gen) envAt(h *Heap, at *ssa.BasicBlock) *Env {
 }
 
 // localByName resolves a source-level local variable (or captured variable) at block `at`.
+// baselineLocals: ordered local-variable names per function on the unchanged tree (baseline/locals.lock).
+var baselineLocals = map[string][]string{}
+
+// localNames: the distinct names of the function's local variables (not parameters), in order of declaration.
+func localNames(fn *ssa.Function) []string {
+	type nv struct {
+		name string
+		pos  token.Pos
+	}
+	var all []nv
+	seen := map[types.Object]bool{}
+	params := map[string]bool{}
+	for _, p := range fn.Params {
+		params[p.Name()] = true
+	}
+	for _, b := range fn.Blocks {
+		for _, in := range b.Instrs {
+			if d, ok := in.(*ssa.DebugRef); ok {
+				if obj, ok := d.Object().(*types.Var); ok && !seen[obj] && !obj.IsField() && !params[obj.Name()] && obj.Pkg() != nil && obj.Parent() != obj.Pkg().Scope() {
+					seen[obj] = true
+					all = append(all, nv{obj.Name(), obj.Pos()})
+				}
+			}
+		}
+	}
+	sort.Slice(all, func(i, j int) bool { return all[i].pos < all[j].pos })
+	var out []string
+	for _, fv := range fn.FreeVars {
+		out = append(out, fv.Name()) // captured variables first (a rename in the enclosing function renames them too)
+	}
+	for _, x := range all {
+		out = append(out, x.name)
+	}
+	return out
+}
+
+// localAliases: names of the baseline that no longer exist, mapped to the local now declared at the same position
+// (same number of locals in the same order: a pure rename).
+func (g *Gen) localAliases() map[string]string {
+	if g.aliases != nil {
+		return g.aliases
+	}
+	g.aliases = map[string]string{}
+	base := baselineLocals[funcKey(g.fn)]
+	cur := localNames(g.fn)
+	if len(base) == 0 || len(base) != len(cur) {
+		return g.aliases
+	}
+	have := map[string]bool{}
+	for _, n := range cur {
+		have[n] = true
+	}
+	for i := range base {
+		if base[i] != cur[i] && !have[base[i]] {
+			g.aliases[base[i]] = cur[i]
+		}
+	}
+	return g.aliases
+}
+
 func (g *Gen) localByName(name string, at *ssa.BasicBlock, h *Heap) (Val, bool) {
+	if a, ok := g.localAliases()[name]; ok {
+		name = a
+	}
 	// captured variable of a closure
 	for _, fv := range g.fn.FreeVars {
 		if fv.Name() == name {
@@ -561,10 +651,139 @@ func (g *Gen) findLoops() {
 	for _, b := range fn.Blocks {
 		if li := g.loops[b]; li != nil {
 			li.ordinal = len(g.loopList) + 1
-			li.spec = g.contract.Loops[li.ordinal]
+			li.nameOrd = li.ordinal
 			g.loopList = append(g.loopList, li)
 		}
 	}
+	// Contracts name loops by ordinal. The ordinals of the baseline are recorded with a signature per loop (what kind of
+	// loop over what type); if the function now has a different number of loops (one was extracted into a helper, one was
+	// added), the contract's ordinals are re-mapped by aligning the two signature sequences, so that the invariants of
+	// the loops that are still there keep binding to them.
+	var sigs []string
+	for _, li := range g.loopList {
+		sigs = append(sigs, loopSignature(li))
+	}
+	currentLoopSigs[funcKey(fn)] = sigs
+	mapping := alignLoops(baselineLoops[funcKey(fn)], sigs)
+	for _, li := range g.loopList {
+		li.spec = g.contract.Loops[li.ordinal]
+	}
+	if mapping != nil {
+		for _, li := range g.loopList {
+			li.spec = nil
+		}
+		for baseOrd, curOrd := range mapping {
+			if spec, ok := g.contract.Loops[baseOrd]; ok && curOrd >= 1 && curOrd <= len(g.loopList) {
+				g.loopList[curOrd-1].spec = spec
+				// obligations keep the baseline ordinal in their names, so that the lock still recognises them
+				g.loopList[curOrd-1].nameOrd = baseOrd
+			}
+		}
+		for baseOrd := 1; baseOrd <= len(baselineLoops[funcKey(fn)]); baseOrd++ {
+			if _, ok := mapping[baseOrd]; !ok {
+				if droppedLoops[funcKey(fn)] == nil {
+					droppedLoops[funcKey(fn)] = map[int]bool{}
+				}
+				droppedLoops[funcKey(fn)][baseOrd] = true
+			}
+		}
+		g.vc.abstract(fmt.Sprintf("the function has %d loop(s), the baseline had %d: loop invariants re-bound by loop signature %v", len(sigs), len(baselineLoops[funcKey(fn)]), mapping))
+	}
+}
+
+// baselineLoops / currentLoopSigs: loop signatures per function (baseline/loops.lock, and this run).
+var baselineLoops = map[string][]string{}
+var currentLoopSigs = map[string][]string{}
+
+// droppedLoops: baseline loop ordinals per function that no loop of the current function aligns with (the loop was
+// removed or moved into a helper). Their invariant obligations cannot be generated; the function's postconditions still
+// have to be proved without them.
+var droppedLoops = map[string]map[int]bool{}
+
+// loopSignature: kind of loop and the type it ranges over (no variable names: renames must not matter).
+func loopSignature(li *loopInfo) string {
+	// the functions called in the loop body distinguish loops over the same type
+	calls := map[string]bool{}
+	for b := range li.body {
+		for _, in := range b.Instrs {
+			if ci, ok := in.(ssa.CallInstruction); ok {
+				if sc := ci.Common().StaticCallee(); sc != nil {
+					calls[lastSeg(funcKey(sc))] = true
+				} else if ci.Common().IsInvoke() {
+					calls[ci.Common().Method.Name()] = true
+				}
+			}
+		}
+	}
+	var cs []string
+	for c := range calls {
+		cs = append(cs, c)
+	}
+	sort.Strings(cs)
+	return loopKind(li) + " calls " + strings.Join(cs, ",")
+}
+
+func loopKind(li *loopInfo) string {
+	for _, in := range li.header.Instrs {
+		switch x := in.(type) {
+		case *ssa.Next:
+			if r, ok := x.Iter.(*ssa.Range); ok {
+				return "range " + r.X.Type().String()
+			}
+			return "range"
+		case *ssa.Phi:
+			if x.Comment == "rangeindex" {
+				// the ranged slice is the operand of the len() in the header
+				for _, in2 := range li.header.Instrs {
+					if c, ok := in2.(*ssa.Call); ok {
+						if b, ok := c.Call.Value.(*ssa.Builtin); ok && b.Name() == "len" && len(c.Call.Args) == 1 {
+							return "rangeindex " + c.Call.Args[0].Type().String()
+						}
+					}
+				}
+				// len() may have been hoisted into the preheader
+				return "rangeindex"
+			}
+		}
+	}
+	return "for"
+}
+
+// alignLoops maps baseline loop ordinals to current ordinals (both 1-based) by a longest-common-subsequence alignment of
+// the signature sequences. nil = identical shape (or no baseline): ordinals are used as written.
+func alignLoops(base, cur []string) map[int]int {
+	if base == nil || len(base) == len(cur) {
+		return nil
+	}
+	n, m := len(base), len(cur)
+	L := make([][]int, n+1)
+	for i := range L {
+		L[i] = make([]int, m+1)
+	}
+	for i := n - 1; i >= 0; i-- {
+		for j := m - 1; j >= 0; j-- {
+			if base[i] == cur[j] {
+				L[i][j] = L[i+1][j+1] + 1
+			} else if L[i+1][j] >= L[i][j+1] {
+				L[i][j] = L[i+1][j]
+			} else {
+				L[i][j] = L[i][j+1]
+			}
+		}
+	}
+	out := map[int]int{}
+	for i, j := 0, 0; i < n && j < m; {
+		if base[i] == cur[j] {
+			out[i+1] = j + 1
+			i++
+			j++
+		} else if L[i+1][j] >= L[i][j+1] {
+			i++
+		} else {
+			j++
+		}
+	}
+	return out
 }
 
 func (g *Gen) rpo() []*ssa.BasicBlock {
@@ -758,6 +977,9 @@ func (g *Gen) processBlock(b *ssa.BasicBlock) {
 	if b.Index == 0 {
 		h = g.entry
 		reach = "true"
+		if g.startHeap != nil {
+			h, reach = g.startHeap, g.startReach
+		}
 	} else {
 		var edges []heapEdge
 		var conds []string
@@ -777,6 +999,9 @@ func (g *Gen) processBlock(b *ssa.BasicBlock) {
 			return // unreachable block
 		}
 		rs := fmt.Sprintf("R.b%d", b.Index)
+		if g.inlineID > 0 {
+			rs = fmt.Sprintf("R.i%d.b%d", g.inlineID, b.Index)
+		}
 		vc.Declare(rs, nil, SBool)
 		vc.Def(Eq(rs, Or(conds...)))
 		reach = rs
@@ -958,7 +1183,7 @@ func (g *Gen) checkInvariant(li *loopInfo, from *ssa.BasicBlock, h *Heap, guard 
 		if label == "" {
 			label = fmt.Sprintf("%d", i+1)
 		}
-		name := fmt.Sprintf("%s#%s:%d:%s", funcKey(g.fn), kind, li.ordinal, label)
+		name := fmt.Sprintf("%s#%s:%d:%s", funcKey(g.fn), kind, li.nameOrd, label)
 		if kind == "invariant-entry" {
 			// several entry edges are rare; disambiguate by count
 			n := 0
